@@ -93,7 +93,10 @@ func (l *enumValueLoader) commentEnd(lex lexeme.LexEvent) {
 		panic(errs.ErrLoader.F())
 	}
 
-	l.enumConstraint.SetComment(l.lastIdx, lex.Value().String())
+	// A comment written before the first item has no item to belong to.
+	if l.lastIdx < l.enumConstraint.Len() {
+		l.enumConstraint.SetComment(l.lastIdx, lex.Value().String())
+	}
 	l.stateFunc = l.annotationEnd
 }
 
